@@ -8,5 +8,6 @@ CONSTANTS BlockLists = {"b1"}
           SchedBeh <- BehTiny
           FileBeh <- BehTiny
           SetURLBeh <- BehSetURL
+          Toggle = FALSE
           SetURLAsIs = TRUE
 INVARIANTS InvCoherent
